@@ -16,24 +16,22 @@ import (
 // together with the nil-ness facts about optional inputs known on that path.
 func (c *Ctx) successTerms(apply *ssa.Function) []string {
 	var out []string
-	for _, r := range returnsOf(apply) {
-		if len(r.Results) != 2 || !isNilConst(r.Results[1]) && !c.errIsCallErr(r.Results[1]) {
-			continue
-		}
-		sl, ok := r.Results[0].(*ssa.Slice)
-		if !ok {
-			if !isNilConst(r.Results[0]) {
-				out = append(out, c.term(r.Results[0], 0))
+	// a method that only hands its operands and attributes to an unexported helper and returns what the helper
+	// returns: the helper's result paths, with its parameters standing for the arguments
+	if h, args := c.pureDelegate(apply); h != nil && len(c.termSubst) < 3 && c.expandHelpers {
+		subst := map[*ssa.Parameter]string{}
+		for i, p := range h.Params {
+			if i < len(args) {
+				subst[p] = c.term(args[i], 0)
 			}
-			continue
 		}
-		els := varargElems(sl)
-		var parts []string
-		for _, e := range els {
-			parts = append(parts, c.term(e, 0))
-		}
+		c.termSubst = append(c.termSubst, subst)
+		defer func() { c.termSubst = c.termSubst[:len(c.termSubst)-1] }()
+		return c.successTerms(h)
+	}
+	guardOf := func(b *ssa.BasicBlock) string {
 		guard := ""
-		for _, g := range guardsOf(r.Block()) {
+		for _, g := range guardsOf(b) {
 			for _, a := range atomsOf(g) {
 				if isNilConst(a.y) && (a.op == token.EQL || a.op == token.NEQ) {
 					if t := c.term(a.x, 0); strings.HasPrefix(t, "P1[") || strings.HasPrefix(t, ".") {
@@ -42,7 +40,62 @@ func (c *Ctx) successTerms(apply *ssa.Function) []string {
 				}
 			}
 		}
-		out = append(out, guard+strings.Join(parts, ";"))
+		return guard
+	}
+	// the single output computed by an unexported helper: the helper's result paths stand for it
+	viaHelper := func(e ssa.Value) ([]string, bool) {
+		ex, ok := e.(*ssa.Extract)
+		if !ok || ex.Index != 0 || len(c.termSubst) >= 3 || !c.expandHelpers {
+			return nil, false
+		}
+		call, ok := ex.Tuple.(*ssa.Call)
+		if !ok {
+			return nil, false
+		}
+		h := call.Common().StaticCallee()
+		if h == nil || !isLibFn(h) || len(h.Blocks) == 0 || !inlineableHelper(h) || h.Signature.Results().Len() != 2 || !isTensorish(h.Signature.Results().At(0).Type()) {
+			return nil, false
+		}
+		subst := map[*ssa.Parameter]string{}
+		for i, p := range h.Params {
+			if i < len(call.Common().Args) {
+				subst[p] = c.term(call.Common().Args[i], 0)
+			}
+		}
+		c.termSubst = append(c.termSubst, subst)
+		defer func() { c.termSubst = c.termSubst[:len(c.termSubst)-1] }()
+		return c.successTerms(h), true
+	}
+	for _, r := range returnsOf(apply) {
+		if len(r.Results) != 2 || !isNilConst(r.Results[1]) && !c.errIsCallErr(r.Results[1]) {
+			continue
+		}
+		sl, ok := r.Results[0].(*ssa.Slice)
+		if !ok {
+			if !isNilConst(r.Results[0]) {
+				if isTensorish(r.Results[0].Type()) {
+					out = append(out, guardOf(r.Block())+c.term(r.Results[0], 0))
+				} else {
+					out = append(out, c.term(r.Results[0], 0))
+				}
+			}
+			continue
+		}
+		els := varargElems(sl)
+		if len(els) == 1 {
+			if sub, ok := viaHelper(els[0]); ok && len(sub) > 0 {
+				g := guardOf(r.Block())
+				for _, t := range sub {
+					out = append(out, g+t)
+				}
+				continue
+			}
+		}
+		var parts []string
+		for _, e := range els {
+			parts = append(parts, c.term(e, 0))
+		}
+		out = append(out, guardOf(r.Block())+strings.Join(parts, ";"))
 	}
 	return out
 }
@@ -70,6 +123,8 @@ func ruleR16(c *Ctx, prop string) {
 			"[.intercepts!=nil]Add(UnidirectionalBroadcast(MatMul(P1[0],.coefficients),.intercepts),UnidirectionalBroadcast(MatMul(P1[0],.coefficients),.intercepts)#1)",
 		},
 	}
+	c.expandHelpers = true
+	defer func() { c.expandHelpers = false }()
 	for _, name := range []string{"Gemm", "Scaler", "LinearRegressor"} {
 		oi := c.opByName(name)
 		key := "R16:shape:" + name
@@ -402,4 +457,34 @@ func (c *Ctx) checkBatchedMatMul(oi *opInfo) {
 		}
 	}
 	c.decide(bad == "", "R16", key, c.pos(mm.Pos()), "out[s] = A[s] x B[s] for the same slicers s", bad)
+}
+
+// pureDelegate: every return of f hands on all results of one and the same call of an unexported library helper
+// (return h(...), possibly preceded by straight-line argument preparation): that helper and the call's arguments.
+func (c *Ctx) pureDelegate(f *ssa.Function) (*ssa.Function, []ssa.Value) {
+	rets := returnsOf(f)
+	if len(rets) != 1 || len(f.Blocks) > 3 {
+		return nil, nil
+	}
+	r := rets[0]
+	var call *ssa.Call
+	for i, v := range r.Results {
+		ex, ok := v.(*ssa.Extract)
+		if !ok || ex.Index != i {
+			return nil, nil
+		}
+		cl, ok := ex.Tuple.(*ssa.Call)
+		if !ok || (call != nil && cl != call) {
+			return nil, nil
+		}
+		call = cl
+	}
+	if call == nil {
+		return nil, nil
+	}
+	h := call.Common().StaticCallee()
+	if h == nil || !isLibFn(h) || len(h.Blocks) == 0 || !inlineableHelper(h) || h.Signature.Results().Len() != len(r.Results) {
+		return nil, nil
+	}
+	return h, call.Common().Args
 }
